@@ -1604,25 +1604,32 @@ func (t *Tokenizer) readPunctuation() (models.Token, error) {
 				tag := string(t.input[tagStart:t.pos.Index])
 				t.pos.AdvanceRune(closingR, closingSize) // consume closing $ of opening tag
 
-				// Now read content until we find $tag$
+				// Now read content until we find $tag$. The closing tag is looked for once;
+				// comparing it at every '$' of the content costs len(tag) per '$', which is
+				// quadratic for a long tag followed by many '$'. A '$' is never part of a
+				// multi-byte character, so the first occurrence is where the scan would stop.
 				closingTag := "$" + tag + "$"
 				contentStart := t.pos.Index
-				for t.pos.Index < len(t.input) {
-					if t.input[t.pos.Index] == '$' && t.pos.Index+len(closingTag) <= len(t.input) {
-						candidate := string(t.input[t.pos.Index : t.pos.Index+len(closingTag)])
-						if candidate == closingTag {
-							content := string(t.input[contentStart:t.pos.Index])
-							// Advance past the closing tag
-							for i := 0; i < len(closingTag); {
-								cr, cs := utf8.DecodeRune([]byte(closingTag[i:]))
-								t.pos.AdvanceRune(cr, cs)
-								i += cs
-							}
-							return models.Token{Type: models.TokenTypeDollarQuotedString, Value: content}, nil
-						}
-					}
-					cr, cs := utf8.DecodeRune(t.input[t.pos.Index:])
+				contentEnd := len(t.input)
+				closed := false
+				if off := bytes.Index(t.input[contentStart:], []byte(closingTag)); off >= 0 {
+					contentEnd = contentStart + off
+					closed = true
+				}
+				// Walk the content rune by rune to keep line and column up to date
+				for t.pos.Index < contentEnd {
+					cr, cs := utf8.DecodeRune(t.input[t.pos.Index:contentEnd])
 					t.pos.AdvanceRune(cr, cs)
+				}
+				if closed {
+					content := string(t.input[contentStart:t.pos.Index])
+					// Advance past the closing tag
+					for i := 0; i < len(closingTag); {
+						cr, cs := utf8.DecodeRuneInString(closingTag[i:])
+						t.pos.AdvanceRune(cr, cs)
+						i += cs
+					}
+					return models.Token{Type: models.TokenTypeDollarQuotedString, Value: content}, nil
 				}
 				// Unterminated dollar-quoted string
 				return models.Token{}, errors.UnterminatedStringError(
